@@ -108,13 +108,13 @@ def get_class(ctx: Ctx, c: dict) -> type:
                     specs.append((fname, Any, dataclasses.field(default_factory=lambda dflt=dflt: mk_value(ctx, dflt))))
                 else:
                     specs.append((fname, Any, dataclasses.field(default=dv)))
-        if cid % 3 == 0 and specs and not c["slots"]:
+        if cid % 3 == 0 and specs:
             # every third dataclass inherits its leading fields from a base dataclass (same fields, same constructor:
-            # nothing a validator for the class may notice)
+            # nothing a validator for the class may notice); with `slots`, each class declares only its own
             nb = cid % len(specs) + 1
-            base = dataclasses.make_dataclass(name + "Base", specs[:nb], frozen=c["hashable"])
+            base = dataclasses.make_dataclass(name + "Base", specs[:nb], frozen=c["hashable"], slots=c["slots"])
             ctx.keep.append(base)
-            cls = dataclasses.make_dataclass(name, specs[nb:], bases=(base,), frozen=c["hashable"])
+            cls = dataclasses.make_dataclass(name, specs[nb:], bases=(base,), frozen=c["hashable"], slots=c["slots"])
         else:
             cls = dataclasses.make_dataclass(name, specs, frozen=c["hashable"], slots=c["slots"])
     elif kind == 2:
